@@ -190,6 +190,23 @@ CHECKS = {
             'deterministic simulation: schedule + rekey-threshold search, '
             'virtual clock, passive reference decoder, history oracle over '
             'ordered packet taps', 'DESIGN.md 4 C11'),
+    'C12': ('c12_sftp_transfer',
+            'A real asyncssh SFTP client (get/put/copy/open+read/write/append '
+            'with offsets; block sizes 1..64k, max_requests 1..128, sizes '
+            'around block and request-count boundaries) over a real SSH '
+            'session against an adversarial SFTP responder backed by an '
+            'in-memory reference file model: replies released in '
+            'scheduler-chosen order, short reads, the n-th READ/WRITE failing, '
+            'source ending before its announced size; plus a fault-free '
+            'population against the real SFTPServer on real files (incl. '
+            'sparse). Oracle: normal return => destination bytes == source '
+            'bytes (or returned bytes == model); injected block error or '
+            'early EOF in a non-sparse copy => the call raises; no hang.',
+            COMMON_NOTE + ' The adversarial responder speaks SFTP v3 only; '
+            'sparse ranges are exercised only against the real server.',
+            'deterministic simulation: reply-order schedule search + '
+            'responder fault injection, reference file model oracle',
+            'DESIGN.md 4 C12'),
 }
 
 NOT_YET = {}
